@@ -5,7 +5,12 @@ import NdnGen.C01
 #print axioms Ndn.C02.digest_covers_params_to_end
 #print axioms Ndn.C02.covered_end_is_sigvalue_offset
 #print axioms Ndn.C02.parsed_cover_is_signed_portion_data
+#print axioms Ndn.C02.parsed_cover_is_signed_portion_interest
+#print axioms Ndn.C02.own_interest_passes_digest_check
+#print axioms Ndn.C02.own_interest_verifies
+#print axioms Ndn.C02.parsed_digest_cover_params_interest
 #print axioms Ndn.C02.tamper_rejected
 #print axioms Ndn.C02.verify_own
 #print axioms Ndn.C02.params_digest_iff
+#print axioms Ndn.Packet.interest_items
 #print axioms Ndn.Gen.C01.schemas_match
